@@ -58,7 +58,8 @@ func c04(r *sim.R) *sim.Violation {
 	secondCrash := thorough && r.T.Draw(3) == 0
 	m := model.NewStore()
 	r.Nontriv = true
-	for i, wo := range hist {
+	for i := range hist {
+		wo := &hist[i]
 		r.Event("%d: %s", i, wo)
 		snap := wd.fs.Snapshot()
 		// 1. uninterrupted execution on the snapshot: learn the operations of this write-out
@@ -162,7 +163,7 @@ func dayPath(iface string, ts int64, dirName string) string {
 
 // dayState classifies the on-disk state of the day a killed write-out was writing to. The class
 // (not the position of the kill) is the signature of a C04 violation.
-func (wd *world) dayState(wo writeout, oldMeta []byte, oldName string) string {
+func (wd *world) dayState(wo *writeout, oldMeta []byte, oldName string) string {
 	names := dbcheck.DayDirNames(wd.fs, tree, rel, wo.iface, model.DayOf(wo.ts))
 	kind := "day already had committed blocks"
 	if oldName == "" {
@@ -188,7 +189,7 @@ func (wd *world) dayState(wo writeout, oldMeta []byte, oldName string) string {
 }
 
 // afterCrash checks the post-crash obligations of C04 on the current disk state.
-func (wd *world) afterCrash(r *sim.R, m *model.Store, wo writeout, sig string, followFlows []model.Flow, second bool) *sim.Violation {
+func (wd *world) afterCrash(r *sim.R, m *model.Store, wo *writeout, sig string, followFlows []model.Flow, second bool) *sim.Violation {
 	wd.fs.Restart("r")
 	blk := wo.block()
 	seen, cl, det := wd.checkStore(m, &blk, wo.iface)
@@ -206,7 +207,7 @@ func (wd *world) afterCrash(r *sim.R, m *model.Store, wo writeout, sig string, f
 		return v
 	}
 	// subsequent write-outs to the same day must succeed and read back
-	next := writeout{iface: wo.iface, ts: wo.ts + 300, flows: followFlows, enc: wo.enc}
+	next := &writeout{iface: wo.iface, ts: wo.ts + 300, flows: followFlows, enc: wo.enc}
 	if model.DayOf(next.ts) != model.DayOf(wo.ts) {
 		next.ts = wo.ts + 1
 	}
